@@ -73,9 +73,26 @@ def visibility(ctx):
                      % [show(c)[:60] for c, v, tr in gs], sp, key=b.name + '|V1|false@%d' % n)
         else:
             passed = any(visible_test(c) and tr is True for c, v, tr in gs)
-            none = any(c[0] == 'discr' and c[1][0] == 'call' and c[1][1] == 'std::ops::Index::index' and
-                       any(x[0] == 'field' and x[2] == 'parents' for x in walk(c[1][2][0])) and chain_member(c[1][2][1]) and v == [0] for c, v, tr in gs)
-            ctx.inst('V1', 'is_visible -> true', passed and none, '`true` is returned only when the member passed its VISIBLE test (%s) and has no parent (%s)'
+            none = False
+            initial_self = False
+            for c, v, a_ in q.guards(b, bb):
+                if c[0] != 'discr':
+                    continue
+                xs = list(alts(c[1]))
+                cursor = bool(xs) and all(
+                    (x[0] == 'call' and x[1] == 'std::ops::Index::index' and any(y[0] == 'field' and y[2] == 'parents' for y in walk(x[2][0])) and chain_member(x[2][1])) or
+                    (x[0] == 'agg' and x[1] == 'std::option::Option' and x[2] == 'Some' and chain_member(dict(x[3])['0'])) for x in xs)
+                explicit = [vv for vv, _ in b.blocks[a_]['term']['targets']]
+                is_none_edge = v == [0] or (v == ['otherwise'] and 1 in explicit and 0 not in explicit)
+                if cursor and is_none_edge:
+                    none = True
+                    initial_self = any(x[0] == 'agg' and is_param_path(strip_casts(dict(x[3])['0']), 1, ['layer_id']) for x in xs)
+            if not passed and none and initial_self:
+                # `while let Some(id) = cursor` form: the cursor starts at Some(self), every iteration tests VISIBLE before it may continue,
+                # so reaching `cursor == None` means every member passed
+                passed = bool(b.cfg.loops) and all(
+                    any(visible_test(c) and q.bool_outcome(b, a2, v2) is True for c, v2, a2 in q.guards(b, src)) for L in b.cfg.loops for src, _ in L['back_edges'])
+            ctx.inst('V1', 'is_visible -> true', passed and none, '`true` is returned only when every visited member passed its VISIBLE test (%s) and the chain has ended (%s)'
                      % (passed, none), sp, key=b.name + '|V1|true@%d' % n)
     ctx.floor('constant results of is_visible', n, 2)
 
